@@ -177,5 +177,19 @@ CLAIMS["C11"] = {
     "technique": "must-call analysis per emitting branch + specialisation of the import bookkeeping + pipeline comparison",
     "ref": "DESIGN.md section 5 C11",
 }
+CLAIMS["C10"] = {
+    "text": "Decides the layout preconditions that are visible in the code: the inventory of file-system write calls of the whole "
+            "package is exactly {API file writer, module stub writer, placeholder writer}; every written path is the output "
+            "directory joined with a module id (or that path minus exactly its last segment for re-export modules); the API "
+            "file is out/'<src stem>__api.json' with both paths resolved at the CLI boundary; the directory and the announced "
+            "package of a stub derive from one value (the same shortest-re-export query / the same module id); the base name "
+            "strips leading underscores; module stubs are opened 'w', and the placeholder writer's mode table over (first "
+            "class of the module in this run, file exists) is {w, w, a, w} with the created-paths set threaded from call to "
+            "call. It decides these clauses, not the behaviour: that two different module ids never map to one path and the "
+            "segment spelling for re-exported declarations are string arithmetic over arbitrary ids and are not decided.",
+    "note": TRUST,
+    "technique": "write-sink inventory + path provenance + typestate of the placeholder writer by specialisation",
+    "ref": "DESIGN.md section 5 C10",
+}
 
 NOT_APPLICABLE = {}
